@@ -23,7 +23,7 @@ pub open spec fn in_sum_interval(a: LoopRange, b: LoopRange, n: int) -> bool {
 
 pub proof fn lemma_sumset(a: LoopRange, b: LoopRange)
     requires lr_wf(a), lr_wf(b),
-    ensures forall|n: int| #[trigger] in_sum_interval(a, b, n) == in_sumset(a, b, n),
+    ensures forall|n: int| #![trigger in_sum_interval(a, b, n)] #![trigger in_sumset(a, b, n)] in_sum_interval(a, b, n) == in_sumset(a, b, n),
 {
     assert forall|n: int| #[trigger] in_sum_interval(a, b, n) implies in_sumset(a, b, n) by {
         // give b as little as possible, the rest to a, unless a is capped
